@@ -1,11 +1,24 @@
 """C10 - MMA iterates respect bounds and move limits (partially decidable).
 
-Executed for real:
-  (a) MMA.__init__, MMA.mmasub              one step from an arbitrary admissible state, `subsolv` replaced by its contract
-  (b) subsolv (step-length rule + line search), residual
-                                           one Newton iteration from an arbitrary interior state with an arbitrary direction
-  (c) MMA.response, _concatenate_to_array, Network/Module/Signal plumbing
-                                           bound / move expansion, sensitivity collection, write-back; `mmasub` stubbed
+Executed for real (unmodified source, symbolic values):
+  (a) kind `mmasub`       MMA.__init__, MMA.mmasub: ONE step from an arbitrary admissible state (xmin < xmax, xval inside,
+                          offset inside its clip interval, xold1/xold2 None or arbitrary, all asymptote parameters
+                          symbolic, both mmaversions); `subsolv` replaced by its contract (any x with alfa <= x <= beta).
+  (b) kind `subsolv`      subsolv's step-length rule and line search from an ARBITRARY interior state with an ARBITRARY
+                          direction: at the first statement of the step-length rule a trace function overwrites the
+                          local variables (state, bounds, direction, reference norm) by fresh symbols - the source is not
+                          edited; the residual norms that steer accept/halve are arbitrary non-negative numbers.
+      `subsolv-first-*`   the same code from subsolv's OWN start state with the real Newton assembly on exact concrete
+                          data and an arbitrary solution (dlam, dz) of the linear system (integration of the pieces).
+      kind `subsolv_init` base case: the state subsolv builds for itself is interior.
+      kind `residual`     residual() equals the KKT residual of the documented sub-problem (Lagrangian differentiated
+                          by diffz3).
+  (c) kind `response`     MMA.response on a real Network of two user modules: bound / move expansion,
+                          _concatenate_to_array, sensitivity collection per response with resets, write-back to the
+                          signals (observed at fn_callback); `mmasub` stubbed on the instance.
+Measured and therefore NOT an item: the first Newton step with fully symbolic problem data and the real direction
+(n = 1, m = 1) leaves every clause that involves dx `unknown` (10 s each); the decomposition (arbitrary direction) decides
+them in milliseconds and covers the computed direction.
 See OUTSIDE for what is not decided (convergence / accuracy of the Newton iteration, convergence of the outer iteration).
 """
 from fractions import Fraction
@@ -26,7 +39,8 @@ BOUNDS = {
                               histories=["first (xold1=xold2=None, offset=None, dx=None)", "second (xold2=None)",
                                          "general (xold1, xold2 arbitrary)"],
                               move=["scalar", "per-variable vector"], asybound=["10.0", "symbolic >= 1"]),
-                  subsolv=dict(n=[1, 2, 3], m=[1, 2], newton_iterations=1, line_search_trials=4,
+                  subsolv=dict(n=[1, 2, 3], m=[1, 2], newton_iterations=1, line_search_trials=4, init_n=[1, 2],
+                               first_step=[(1, 1, 0), (2, 1, 1), (2, 2, 2)],
                                note="state, bounds and direction havoc'd at the start of the step-length rule"),
                   residual=dict(n=[2], m=[1, 2]),
                   response=dict(layouts=["a3", "s-a2", "a2-s-a1", "s-s", "a2-a2"],
@@ -34,7 +48,8 @@ BOUNDS = {
     "thorough": dict(mmasub=dict(n=[2, 3, 4], m=[1, 2], versions=["Svanberg1987", "Svanberg2007"],
                                  histories=["first", "second", "general"], move=["scalar", "per-variable vector"],
                                  asybound=["10.0", "symbolic >= 1"]),
-                     subsolv=dict(n=[1, 2, 3, 4], m=[1, 2, 3], newton_iterations=1, line_search_trials=6,
+                     subsolv=dict(n=[1, 2, 3, 4], m=[1, 2, 3], newton_iterations=1, line_search_trials=6, init_n=[1, 2, 3],
+                                  first_step=[(1, 1, 0), (2, 1, 1), (2, 2, 2), (3, 2, 3), (3, 1, 4)],
                                   note="as quick"),
                      residual=dict(n=[2, 3], m=[1, 2]),
                      response=dict(layouts=["a3", "s-a2", "a2-s-a1", "s-s", "a2-a2", "s-a3-s", "a1-a2-a2"],
@@ -48,7 +63,9 @@ OUTSIDE = [
     "direction, which covers the computed one; that the direction is a descent/Newton direction is not checked",
     "more than one Newton iteration / more line-search halvings than the bound in one symbolic run (the step is inductive: "
     "start state and direction are arbitrary, so any iteration count is covered as long as every step starts inside)",
-    "subsolv's own initialisation (x0 clipping with 1e-10 margins) for alfa == beta or beta - alfa < 2e-10",
+    "subsolv's own initialisation (x0 clipping with 1e-10 margins) for beta - alfa <= 2e-10 (the start point is then not interior)",
+    "the Newton step with the computed direction on fully symbolic problem data (measured: undecided within the time-out); "
+    "the `subsolv-first-*` items run it on exact concrete data only",
     "n, m and signal layouts beyond the bounds; m = 0 (no constraints)",
     "the additive constant of the objective approximation (rhs[0] is not handed to the sub-solver): only its gradient is checked",
     "verbosity >= 1 printing, fn_callback side effects, complex or non-scalar responses (TypeError paths)",
@@ -58,7 +75,10 @@ ASSUMPTIONS = [
     "float64 arithmetic modelled as exact real arithmetic; float literals read as their shortest decimal",
     "admissible MMA state: xmin < xmax, xmin <= xval <= xmax, offset in [1/asybound^2, asybound], 0 < albefa < 1, asyincr > 1, "
     "0 < asydecr < 1, move > 0, asybound >= 1, asyinit in [1/asybound^2, asybound] (first iterations use offset = asyinit)",
-    "subsolv contract used in (a): returns any x with alfa <= x <= beta",
+    "subsolv contract used in (a): returns any x with alfa <= x <= beta (b shows the open interval for every Newton step)",
+    "(b) is an induction: base case (subsolv_init) + step (subsolv) => every iterate is interior, PROVIDED the Newton "
+    "assembly does not raise (singular AA -> LinAlgError) - the assembly only reads the iterate (checked on the concrete run)",
+    "(c): objective value non-zero (|df|/|f| is computed), tolf <= 0 and tolx = 0 so that both iterations run",
     "interior state used in (b): alfa < x < beta, y, z, lam, xsi, eta, mu, zet, s > 0; residual norms of the line search "
     "are arbitrary non-negative numbers (over-approximates the accept/halve decisions)",
 ]
@@ -88,6 +108,13 @@ def items(tier):
         for m in sb["m"]:
             out.append(dict(kind="subsolv", id="subsolv-n%d-m%d-K%d" % (n, m, sb["line_search_trials"]), n=n, m=m,
                             trials=sb["line_search_trials"]))
+    for n, m, dv in sb["first_step"]:
+        out.append(dict(kind="subsolv", id="subsolv-first-n%d-m%d-d%d" % (n, m, dv), n=n, m=m, trials=sb["line_search_trials"],
+                        mode="first", data=dv))
+    for n in sb["init_n"]:
+        for x0 in (False, True):
+            out.append(dict(kind="subsolv_init", id="subsolv-init-n%d-m%d-%s" % (n, min(n, 2), "x0" if x0 else "nox0"), n=n,
+                            m=min(n, 2), x0=x0))
     for n in b["residual"]["n"]:
         for m in b["residual"]["m"]:
             out.append(dict(kind="residual", id="residual-n%d-m%d" % (n, m), n=n, m=m))
@@ -163,16 +190,42 @@ class Clauses(list):
         for i in np.ndindex(*A.shape):
             self.eq("%s[%s]" % (label, ",".join(map(str, i))), A[i], B[i], kind)
 
-    def discharge(self, P):
-        for label, kind, op, a, b in (e[:5] for e in self):
+    def discharge(self, P, weak_first_kinds=()):
+        """Hand every clause to the Prover.  Clauses of the kinds in `weak_first_kinds` do not depend on the branch taken:
+        they are first tried WITHOUT the path condition (fewer hypotheses: a proof is a fortiori valid on the path); only
+        if that does not succeed are they decided under the full path condition.  An `unknown` under the full path
+        condition is likewise retried without it.  A `sat` obtained without the path condition is never used."""
+        c = P.c
+
+        def attempt(label, kind, op, a, b):
             if op == "true":
-                P.holds(label, a, kind=kind)
-            elif op == "eq":
-                P.eq(label, a, b, kind=kind)
-            elif op == "lt":
-                P.holds(label, a < b, kind=kind)
-            else:
-                P.holds(label, a <= b, kind=kind)
+                return P.holds(label, a, kind=kind)
+            if op == "eq":
+                return P.eq(label, a, b, kind=kind)
+            return P.holds(label, (a < b) if op == "lt" else (a <= b), kind=kind)
+
+        def weak(label, kind, op, a, b):
+            saved = c.pc
+            c.pc = []
+            try:
+                o = attempt(label, kind, op, a, b)
+            finally:
+                c.pc = saved
+            if isinstance(o, tuple) or o.status != "unsat":
+                for x in (o if isinstance(o, tuple) else (o,)):
+                    P.obls.remove(x)
+                return None
+            o.stage = str(o.stage) + " (without path condition)"
+            return o
+
+        for label, kind, op, a, b in (e[:5] for e in self):
+            if kind in weak_first_kinds and c.pc and weak(label, kind, op, a, b) is not None:
+                continue
+            o = attempt(label, kind, op, a, b)
+            if not isinstance(o, tuple) and o.status == "unknown" and c.pc and kind not in weak_first_kinds:
+                o2 = weak(label, kind, op, a, b)
+                if o2 is not None:
+                    P.obls.remove(o)
 
     def evaluate(self, label, rtol=1e-9, eqtol=1e-9):
         """(violated?, detail) for the clause `label` on float values; None if the clause does not exist in this run."""
@@ -183,6 +236,8 @@ class Clauses(list):
             if op == "true":
                 return (not a), dict(clause=lab, value=bool(a))
             a, b = float(a), float(b)
+            if a != a or b != b:        # NaN never satisfies a clause
+                return True, dict(clause=lab, op=op, lhs=a, rhs=b, note="NaN")
             sc = max(1.0, abs(a), abs(b))
             if op == "eq":
                 bad = abs(a - b) > eqtol * max(abs(a), abs(b), float(e[5])) + 1e-13
@@ -476,9 +531,29 @@ class _NPX:
 _STATE_VEC = ("x", "y", "lam", "xsi", "eta", "mu", "s")
 
 
-def _subsolv_data(n, m):
-    return dict(low=-np.ones(n), upp=2 * np.ones(n), alfa=np.zeros(n), beta=np.ones(n), P=np.ones((m + 1, n)),
-                Q=np.ones((m + 1, n)), a0=1.0, a=np.zeros(m), b=np.ones(m), c=1000.0 * np.ones(m), d=np.ones(m))
+def _subsolv_data(n, m, exact=None, variant=0):
+    """Concrete (dyadic) sub-problem data; exact=True: object arrays of exact constants so that symbolic values can be
+    stored into the arrays derived from them."""
+    d = dict(low=-np.ones(n), upp=2 * np.ones(n), alfa=np.zeros(n), beta=np.ones(n), P=np.ones((m + 1, n)),
+             Q=np.ones((m + 1, n)), a0=1.0, a=np.zeros(m), b=np.ones(m), c=1000.0 * np.ones(m), d=np.ones(m))
+    if variant:
+        for i in range(m + 1):
+            for j in range(n):
+                d["P"][i, j] = 1 + (i + 2 * j) / 4.0
+                d["Q"][i, j] = 0.5 + ((2 * i + j + variant) % 5) / 4.0
+        d["alfa"] = np.array([j / 4.0 for j in range(n)])
+        d["beta"] = d["alfa"] + np.array([1.0 + ((j + variant) % 2) / 2.0 for j in range(n)])
+        d["low"], d["upp"] = d["alfa"] - 0.5, d["beta"] + 0.75
+        d["a"] = np.array([(i % 2) / 2.0 for i in range(m)])
+        d["c"] = np.array([8.0 + 4 * i for i in range(m)])
+    if exact:
+        for k, v in d.items():
+            if isinstance(v, np.ndarray):
+                o = np.empty(v.shape, dtype=object)
+                for i in np.ndindex(*v.shape):
+                    o[i] = R(q=Fraction(float(v[i])))
+                d[k] = o.view(SymArray)
+    return d
 
 
 def _run_subsolv(V, cfg):
@@ -486,10 +561,11 @@ def _run_subsolv(V, cfg):
     bounds and the direction are replaced by arbitrary interior values (trace function, no source edit)."""
     from pymoto.common import mma as mm
     n, m, K = cfg["n"], cfg["m"], cfg["trials"]
+    first = cfg.get("mode") == "first"     # no havoc: subsolv's own start state, real assembly, arbitrary (dlam, dz)
     code = mm.subsolv.__code__
     cut = _find_line(mm.subsolv, "stmy =")
     head = _find_line(mm.subsolv, "ittt = ittt + 1")
-    st = dict(cuts=0, heads=0, calls=0, trials=[], hav=None, stop=None, ret=None, res1=None)
+    st = dict(cuts=0, heads=0, calls=0, trials=[], hav=None, stop=None, ret=None, init=None, pure=None)
     real_residual = mm.residual
 
     def havoc(loc):
@@ -529,7 +605,14 @@ def _run_subsolv(V, cfg):
                     raise _Stop()
             elif frame.f_lineno == cut and st["cuts"] == 0:
                 st["cuts"] = 1
-                frame.f_locals.update(havoc(frame.f_locals))
+                loc = frame.f_locals
+                if st["init"] is not None:      # the Newton assembly must not have touched the iterate
+                    st["pure"] = all(np.array_equal(np.asarray(loc[k], dtype=float), np.asarray(st["init"][k], dtype=float))
+                                     for k in _STATE_VEC + ("z", "zet"))
+                if first:
+                    st["hav"] = dict(alfa=_arr(loc["alfa"]), beta=_arr(loc["beta"]))
+                else:
+                    frame.f_locals.update(havoc(loc))
         return local_tracer
 
     def tracer(frame, event, arg):
@@ -540,6 +623,8 @@ def _run_subsolv(V, cfg):
     def residual_wrapper(x, y, z, lam, xsi, eta, mu, zet, s, *rest):
         st["calls"] += 1
         if st["cuts"] == 0:     # initial residual of subsolv's own (concrete) start state
+            st["init"] = dict(x=_arr(x), y=_arr(y), z=z, lam=_arr(lam), xsi=_arr(xsi), eta=_arr(eta), mu=_arr(mu), zet=zet,
+                              s=_arr(s))
             return np.asarray(real_residual(x, y, z, lam, xsi, eta, mu, zet, s, *rest), dtype=float)
         res = np.zeros(3 * len(x) + 4 * len(y) + 2)
         t = len(st["trials"]) + 1
@@ -555,13 +640,19 @@ def _run_subsolv(V, cfg):
         return out.view(SymArray) if V.symbolic else out
 
     def solve(A, b):
+        if first:       # arbitrary (dlam, dz): covers whatever the linear solve returns
+            st["nsolve"] = st.get("nsolve", 0) + 1
+            return V.reals("sol%d" % st["nsolve"], len(b))
         return np.linalg.solve(np.asarray(A, dtype=float), np.asarray(b, dtype=float))
 
     saved = {}
     if V.symbolic:
         c = _ctx.current()
-        c.stubs.add("subsolv: local state / bounds / Newton direction replaced by arbitrary interior values at the "
-                    "first statement of the step-length rule (trace-function havoc)")
+        if first:
+            c.stubs.add("numpy.linalg.solve inside subsolv ('first-step' items): arbitrary unconstrained (dlam, dz)")
+        else:
+            c.stubs.add("subsolv: local state / bounds / Newton direction replaced by arbitrary interior values at the "
+                        "first statement of the step-length rule (trace-function havoc)")
         c.stubs.add("pymoto.common.mma.residual during the line search: executed, result replaced by an arbitrary "
                     "non-negative norm (over-approximates accept/halve)")
         c.stubs.add("builtin max inside pymoto.common.mma -> If-terms")
@@ -570,7 +661,17 @@ def _run_subsolv(V, cfg):
         saved["max"] = mm.__dict__.get("max", _Stop)
         mm.__dict__["max"] = _sym_max
     mm.residual = residual_wrapper
-    d = _subsolv_data(n, m)
+    d = _subsolv_data(n, m, exact=V.symbolic if first else None, variant=cfg.get("data", 0))
+    if first and not V.symbolic:
+        class _L:
+            def __getattr__(self, nm):
+                return solve if nm == "solve" else getattr(np.linalg, nm)
+        class _N:
+            linalg = _L()
+            def __getattr__(self, nm):
+                return getattr(np, nm)
+        saved["np"] = mm.np
+        mm.np = _N()
     old_trace = sys.gettrace()
     sys.settrace(tracer)
     try:
@@ -616,6 +717,7 @@ def sc_subsolv(V, P, cfg):
     cl = Clauses()
     cl.true("havoc-point-reached", st["cuts"] == 1, "reach")
     cl.true("at-least-one-trial", len(st["trials"]) >= 1, "reach")
+    cl.true("newton-assembly-leaves-the-iterate-untouched", st["pure"] is True, "reach")
     hv = st["hav"]
     for t, tr in enumerate(st["trials"]):
         cl.arr_eq("t%d:alfa-unchanged" % t, tr["alfa"], hv["alfa"], "bounds-unchanged")
@@ -636,6 +738,50 @@ def sc_subsolv(V, P, cfg):
         return obs
     if st["stop"]:
         _ctx.current().notes.append("bound reached on a path: " + st["stop"])
+    cl.discharge(P)
+    return obs
+
+
+def sc_subsolv_init(V, P, cfg):
+    """Base case of the interior invariant: the state subsolv builds for itself (x0 given / not given) is interior."""
+    from pymoto.common import mma as mm
+    n, m = cfg["n"], cfg["m"]
+    alfa = V.reals("alfa", n)
+    gap = V.reals("gap", n, positive=True, default=1.0)
+    if V.symbolic:
+        for j in range(n):
+            V.assume(gap[j] > R.of("2e-10"), "beta - alfa > 2e-10 (the clipping margins of subsolv's start point)")
+    beta = alfa + gap
+    d = _subsolv_data(n, m)
+    low, upp = alfa - 1, beta + 1
+    c = V.reals("c", m, default=1000.0)
+    x0 = V.reals("x0", n) if cfg["x0"] else None
+    seen = {}
+    real_residual = mm.residual
+
+    def residual_wrapper(x, y, z, lam, xsi, eta, mu, zet, s, *rest):
+        seen.update(x=_arr(x), y=_arr(y), z=z, lam=_arr(lam), xsi=_arr(xsi), eta=_arr(eta), mu=_arr(mu), zet=zet, s=_arr(s),
+                    alfa=_arr(rest[-2]), beta=_arr(rest[-1]))
+        raise _Stop()
+
+    mm.residual = residual_wrapper
+    try:
+        mm.subsolv(0.5, low, upp, alfa, beta, d["P"], d["Q"], d["a0"], d["a"], d["b"], c, d["d"], x0=x0)
+    except _Stop:
+        pass
+    finally:
+        mm.residual = real_residual
+    obs = {k: v for k, v in seen.items()}
+    cl = Clauses()
+    cl.true("initial-state-observed", bool(seen), "reach")
+    if seen:
+        cl.arr_eq("alfa-arg", seen["alfa"], alfa, "reach")
+        cl.arr_eq("beta-arg", seen["beta"], beta, "reach")
+        for lab, lo, hi in _interior_clauses(dict(seen, alfa=alfa, beta=beta)):
+            cl.lt("init:" + lab, lo, hi, "interior-base")
+    if P is None:
+        obs["_clauses"] = cl
+        return obs
     cl.discharge(P)
     return obs
 
@@ -926,7 +1072,7 @@ def sc_response(V, P, cfg):
 
 
 # ================================================================================================ dispatch
-SCEN = dict(mmasub=sc_mmasub, subsolv=sc_subsolv, residual=sc_residual, response=sc_response)
+SCEN = dict(mmasub=sc_mmasub, subsolv=sc_subsolv, subsolv_init=sc_subsolv_init, residual=sc_residual, response=sc_response)
 
 
 def run_item(cfg, tier):
